@@ -125,12 +125,15 @@ structure St where
   recvd : List Nat
   /-- ghost: values passed to `send` by each fiber, in call order -/
   calls : Nat → List Nat
+  /-- ghost: every value ever passed to `send` (messages are distinct: for the queue kinds a
+      message IS a caller-owned node, which must not be sent again while the channel owns it) -/
+  used : List Nat
 
 def init (k : Kind) (cap : Nat) : St :=
   { kind := k, cap := cap, p := pinit, high := 0, low := 0, buf := fun _ => 0,
     order := [], linked := fun _ => false, hd := 0, headNode := 1, ndata := fun _ => 0,
     pc := fun _ => .idle, receiver := none, spSender := none, sent := [], recvd := [],
-    calls := fun _ => [] }
+    calls := fun _ => [], used := [] }
 
 def tailNode (s : St) : Nat := s.order.getLast?.getD 1
 
@@ -180,9 +183,9 @@ def pEmbedded (s : St) (e : PEv) : Option St :=
 def step (s : St) : Ev → Option St
   -- ------------------------------------------------------------------ API notes
   | .callSend f v =>
-    if s.pc f = .idle ∧ v ≠ 0 ∧ s.receiver ≠ some f ∧
+    if s.pc f = .idle ∧ v ≠ 0 ∧ v ∉ s.used ∧ s.receiver ≠ some f ∧
         (s.kind = .sp → (s.spSender = none ∨ s.spSender = some f)) then
-      some { s with calls := upd s.calls f (s.calls f ++ [v]),
+      some { s with calls := upd s.calls f (s.calls f ++ [v]), used := v :: s.used,
                     spSender := if s.kind = .sp then some f else s.spSender,
                     pc := upd s.pc f (if s.kind = .bounded then .sTop v else .qCalled v) }
     else none
@@ -316,13 +319,16 @@ def step (s : St) : Ev → Option St
     if s.kind = .bounded then none else
     match s.pc f with
     | .rGotNext h x' =>
-      if x = x' then some { s with headNode := x, hd := s.hd + 1, pc := upd s.pc f (.rMoved h x) } else none
+      -- the pop takes effect here (ghost `recvd`: the value the node carries)
+      if x = x' then
+        some { s with headNode := x, hd := s.hd + 1, recvd := s.recvd ++ [s.ndata x], pc := upd s.pc f (.rMoved h x) }
+      else none
     | _ => none
   | .rData f n d =>
     if s.kind = .bounded then none else
     match s.pc f with
     | .rMoved h x =>
-      if n = x ∧ d = s.ndata x then some { s with recvd := s.recvd ++ [d], pc := upd s.pc f (.rGotData h d) } else none
+      if n = x ∧ d = s.ndata x then some { s with pc := upd s.pc f (.rGotData h d) } else none
     | .rWrote h d' => if n = h ∧ d = d' ∧ d = s.ndata h then some { s with pc := upd s.pc f (.rDone d) } else none
     | _ => none
 
